@@ -182,9 +182,9 @@ func c03Oracle(c c03Case) error {
 
 func genC03Input(t *rapid.T) ([]byte, int) {
 	o := StreamOpts{MinItems: 1, MaxItems: 3,
-		Dump: DumpOpts{MaxG: 4, MaxFrames: 5, Variants: true},
+		Dump: DumpOpts{MaxG: 6, MaxFrames: 5, Variants: true, PoolHeavy: rapid.Bool().Draw(t, "pooled"), LongLines: true},
 		Race: RaceOpts{MaxOps: 3, MaxFrames: 3, Args: true},
-		Junk: JunkOpts{MaxLines: 3, Binary: true}}
+		Junk: JunkOpts{MaxLines: 3, Binary: true, Long: true}}
 	s := genStream(t, o)
 	// Point some frames into the fixture tree.
 	for i := range s.Items {
